@@ -288,4 +288,58 @@ def actionCount (q : Nat) : List Outcome → Nat
   | .act a :: os => (if a.query = q then 1 else 0) + actionCount q os
   | _ :: os => actionCount q os
 
+/-! ### Ghost information for the per-query statements at engine level -/
+
+/-- The peer lists of a message carry the true distances and name only peers of the universe. -/
+def Msg.ok (d : Nat → Nat) (U : List Nat) : Msg → Prop
+  | .findNode peers => ∀ kp ∈ peers, kp.dist = d kp.peer ∧ kp.peer ∈ U
+  | .getRecord _ peers => ∀ kp ∈ peers, kp.dist = d kp.peer ∧ kp.peer ∈ U
+  | .getProviders _ peers => ∀ kp ∈ peers, kp.dist = d kp.peer ∧ kp.peer ∈ U
+  | _ => True
+
+/-- The responses routed to query `q` are well formed (nothing is assumed about other queries). -/
+def EOp.okFor (d : Nat → Nat) (U : List Nat) (q : Nat) : EOp → Prop
+  | .response q' _ m => q' = q → m.ok d U
+  | _ => True
+
+/-- The operation starts an iterative lookup under id `q` with the initial candidates `inPeers`. -/
+def EOp.startsLookup (q : Nat) (inPeers : List KPeer) : EOp → Prop
+  | .startFindNode q' c => q' = q ∧ c = inPeers
+  | .startPutRecord q' _ c _ => q' = q ∧ c = inPeers
+  | .startGetRecord q' c _ _ => q' = q ∧ c = inPeers
+  | .startAddProvider q' _ _ c _ => q' = q ∧ c = inPeers
+  | .startGetProviders q' c _ => q' = q ∧ c = inPeers
+  | _ => False
+
+/-- The peer query `q` is told to contact by one outcome. -/
+def sentNow (q : Nat) : Outcome → Option Nat
+  | .act (.send q' p) => if q' = q then some p else none
+  | _ => none
+
+/-- The peers query `q` was told to contact, oldest first. -/
+def sentTo (q : Nat) : List Outcome → List Nat
+  | [] => []
+  | o :: os => (sentNow q o).toList ++ sentTo q os
+
+/-- The clock readings of the engine never go back (starting from `t`). -/
+def eMonotoneFrom (t : Nat) : List EOp → Prop
+  | [] => True
+  | .next now _ :: ops => t ≤ now ∧ eMonotoneFrom now ops
+  | _ :: ops => eMonotoneFrom t ops
+
+def eLastNow (t : Nat) : List EOp → Nat
+  | [] => t
+  | .next now _ :: ops => eLastNow now ops
+  | _ :: ops => eLastNow t ops
+
+/-- The requests of a query that count towards the parallelism factor at time `now`: unanswered and
+not older than the peer timeout for `FindNodeContext`, unanswered for value and provider lookups. -/
+def QueryType.inFlight (now : Nat) : QueryType → Nat
+  | .findNode c => (c.fresh now).length
+  | .putRecord _ _ c => (c.fresh now).length
+  | .addProvider _ _ _ c => (c.fresh now).length
+  | .getRecord c => c.pending.length
+  | .getProviders c => c.pending.length
+  | _ => 0
+
 end Litep2pVerif.Kad.Query
